@@ -246,11 +246,11 @@ def signCp (c : Chan) (n pt info : Nat) (policyOk : Bool) : R :=
     else if num ≠ c.cpCommit ∧ num ≠ c.cpCommit + 1 then fail c .errPolicy
     else
       -- EnforcementState::set_next_counterparty_commit_num
-      let c' := if num = c.cpCommit + 1 then
-                  { c with prevPt := c.curPt, prevInfo := c.curInfo,
-                           curPt := some pt, curInfo := some info, cpCommit := num }
-                else c
-      { c := c', out := { res := .ok }, persisted := true }
+      if num = c.cpCommit + 1 then
+        { c := { c with prevPt := c.curPt, prevInfo := c.curInfo,
+                        curPt := some pt, curInfo := some info, cpCommit := num },
+          out := { res := .ok }, persisted := true }
+      else { c := c, out := { res := .ok }, persisted := true }   -- retry: nothing moves
 
 /-- `EnforcementState::get_previous_counterparty_point` -/
 def prevPoint (c : Chan) (n : Nat) : Option Nat :=
